@@ -300,6 +300,31 @@ def correspondence(ctx, summ):
         if not hit:
             ctx.violation("hashed year %s of %r differs between code and generated table but no single date does" % (calgen.fmt_date(d0), nm),
                           {"kind": "translator-vs-code", "name": nm, "day_number": d0, "no_failing_input": True})
+    # THE ROUTE a named calendar takes in use: NamedCal::try_new(name) / CalType::NamedCal hold a UnionCal of the table, not
+    # the Cal itself - the same sweep through them (harness `holn`, same hash) must give the same answers
+    routes = [ctx.rng.choice([1, 2]) for _ in cases]
+    impl_n = run_harness("named", [hline("holn", nm, [d0, cnt, rt]) for (nm, d0, cnt), rt in zip(cases, routes)])
+    nrep = 0
+    for (nm, d0, cnt), rt, a, b in zip(cases, routes, impl_n, model):
+        ctx.evaluations += 2 * cnt
+        ctx.count("table of a name through %s" % ("NamedCal" if rt == 1 else "CalType::NamedCal"), 2 * cnt)
+        if a == b:
+            continue
+        nrep += 1
+        if nrep > 4:
+            ctx.count("further differing (name, year) blocks through NamedCal not drilled down")
+            continue
+        days = list(range(d0, d0 + cnt))
+        sa = run_harness("named", [hline("holn", nm, [d, 1, rt]) for d in days])
+        sb = coq_eval("Run.RunNamed", "runNamed", [[1] + enc(nm) + [d, 1] for d in days], ctx.work, tag="drilln")
+        bad = [d for d, p, q in zip(days, sa, sb) if p != q]
+        d = bad[0] if bad else d0
+        ctx.violation("%s(%r) on %s: is_holiday / is_bus_day differ from the table regenerated from rust/calendars/named "
+                      "(which get_calendar_by_name(%r) itself agrees with)" % ("NamedCal::try_new" if rt == 1 else "CalType::NamedCal", nm,
+                                                                                 calgen.fmt_date(d), nm),
+                      {"kind": "named-route", "name": nm, "route": rt, "day_number": d, "date": calgen.fmt_date(d),
+                       "no_failing_input": not bad,
+                       "harness_cmd": "echo '%s' | harness/target/release/rlharness named" % hline("holn", nm, [d, 1, rt])})
     # name resolution: documented names, wired names, and strings that must not resolve
     rng = ctx.rng
     probes = sorted(set(summ["doc_names"]) | set(names)) + ["", "TGT", "Tgt", "tgt ", " tgt", "tgt,ldn", "tgt|fed", "xyz", "ny", "nycc", "fe",
@@ -404,6 +429,12 @@ def replay(ctx, rp):
         print("replay get_calendar_by_name(%r): code %s, generated wiring %s" % (nm, a, b))
         ctx.cleanup()
         return 0 if a == b == [0] else 1
+    if rp.get("kind") == "named-route":
+        a = run_harness("named", [hline("holn", nm, [d, 1, rp.get("route", 1)])])[0]
+        b = coq_eval("Run.RunNamed", "runNamed", [[1] + enc(nm) + [d, 1]], ctx.work)[0]
+        print("replay NamedCal route %r on %s: code hash %s, generated table hash %s" % (nm, calgen.fmt_date(d), a, b))
+        ctx.cleanup()
+        return 0 if a == b else 1
     a = run_harness("named", [hline("one", nm, [d])])[0]
     b = coq_eval("Run.RunNamed", "runNamed", [[2] + enc(nm) + [d]], ctx.work)[0]
     extra = ""
